@@ -357,7 +357,7 @@ From OV Require Import Model.Num Model.Pressure Model.Costing Proofs.PressureQ P
 
 Section Glue.
   Context {T : Type} (N : NumOps T).
-  Notation UL := (list (@uop T)).
+  Notation UL := (@Rows.UL T).
   Notation row := (Rows.row UL).
   Notation choice := (Rows.choice UL).
 
@@ -480,10 +480,12 @@ Section Glue.
     exists lk', fill_rows m tb q rt lk = Some lk' /\ r = compose N m lk' e (Ok rt) /\ r = cost_instr N m lk'.
   Proof.
     intros HD HR H. unfold cost_instr_rows in H. rewrite HD, HR in H.
-    destruct (fill_rows m tb q rt lk) as [lk'|] eqn:EF; [|discriminate]. cbn [option_map] in H. inversion H; subst r.
+    destruct (fill_rows m tb q rt lk) as [lk'|] eqn:EF; [|discriminate]. cbn [option_map] in H. injection H as <-.
     exists lk'. split; [reflexivity|]. split; [reflexivity|].
     destruct (fill_rows_fields _ _ _ _ _ _ EF) as (A1 & A2 & A3 & A4 & A5 & A6 & A7 & _).
-    unfold cost_instr, regform in *. rewrite A3, A4, A5, HD, A1, A2, A6, A7, HR. reflexivity.
+    unfold cost_instr. rewrite A3, A4, A5, HD.
+    assert (regform lk' = regform lk) as -> by (unfold regform; rewrite A1, A2, A3, A6, A7; reflexivity).
+    rewrite HR. reflexivity.
   Qed.
 
   (* outside the composition path the tables are not consulted at all *)
@@ -538,4 +540,160 @@ Section Glue.
   Lemma kernel_rows_app m tb k1 u k2 :
     cost_kernel_rows N m tb (k1 ++ u :: k2) = cost_kernel_rows N m tb k1 ++ cost_line_rows N m tb u :: cost_kernel_rows N m tb k2.
   Proof. unfold cost_kernel_rows. rewrite map_app. reflexivity. Qed.
+
+  Lemma sel_ld_inv a tb q rt us :
+    sel_ld a tb q rt = Some us ->
+    exists mem ch, q_ld q = Some mem /\ load_choice a (t_ld tb) mem rt = Some ch /\ us = choice_uops (t_ld_default tb) ch.
+  Proof.
+    unfold sel_ld. destruct (q_ld q) as [mem|]; [|discriminate].
+    destruct (load_choice a (t_ld tb) mem rt) as [ch|] eqn:E; [|discriminate]. cbn [option_map].
+    intros H; injection H as <-. exists mem, ch. repeat split. exact E.
+  Qed.
+
+  Lemma sel_st_inv a tb q rt us :
+    sel_st a tb q rt = Some us ->
+    exists mem ch, q_st q = Some mem /\ store_choice a (t_st tb) mem rt = Some ch /\ us = choice_uops (t_st_default tb) ch.
+  Proof.
+    unfold sel_st. destruct (q_st q) as [mem|]; [|discriminate].
+    destruct (store_choice a (t_st tb) mem rt) as [ch|] eqn:E; [|discriminate]. cbn [option_map].
+    intros H; injection H as <-. exists mem, ch. repeat split. exact E.
+  Qed.
+
+  (* which rows: the load / store micro-ops of a composed instruction are the selection from the raw tables *)
+  Lemma parts_are_selected m tb q rt lk lk' e c :
+    fill_rows m tb q rt lk = Some lk' -> compose N m lk' e (Ok rt) = Ok c ->
+    (lk_has_ld lk = true ->
+       exists mem ch, q_ld q = Some mem /\ load_choice (isa_of (m_isa m)) (t_ld tb) mem rt = Some ch /\
+                      ld_part (isa_of (m_isa m)) tb q rt lk = choice_uops (t_ld_default tb) ch) /\
+    (lk_has_st lk = true ->
+       exists mem ch, q_st q = Some mem /\ store_choice (isa_of (m_isa m)) (t_st tb) mem rt = Some ch /\
+                      st_part m tb q rt lk = if writeback_only (m_isa m) lk then [] else choice_uops (t_st_default tb) ch).
+  Proof.
+    intros HF HC. destruct (compose_parts _ _ _ _ _ _ _ _ HF HC) as (_ & _ & HL & HS). split.
+    - intros E. destruct (HL E) as (us & Hus). destruct (sel_ld_inv _ _ _ _ _ Hus) as (mem & ch & A & B & ->).
+      exists mem, ch. repeat split; auto. unfold ld_part. rewrite E, Hus. reflexivity.
+    - intros E. destruct (HS E) as (us & Hus). destruct (sel_st_inv _ _ _ _ _ Hus) as (mem & ch & A & B & ->).
+      exists mem, ch. repeat split; auto. unfold st_part. rewrite E, Hus. reflexivity.
+  Qed.
+
+  (* micro-ops are the union: register form, then the selected load row, then the selected store row *)
+  Lemma compose_uops_rows m tb q lk e rt c ru :
+    with_fallback (lk_suffix lk) (lk_direct lk) (lk_direct_s lk) = None ->
+    regform lk = Some (e, Ok rt) ->
+    cost_instr_rows N m tb q lk = Some (Ok c) -> e_uops e = UList ru ->
+    c_uops c = PList (ru ++ ld_part (isa_of (m_isa m)) tb q rt lk ++ st_part m tb q rt lk) /\
+    (lk_has_ld lk = true ->
+       exists mem ch, q_ld q = Some mem /\ load_choice (isa_of (m_isa m)) (t_ld tb) mem rt = Some ch /\
+                      ld_part (isa_of (m_isa m)) tb q rt lk = choice_uops (t_ld_default tb) ch) /\
+    (lk_has_st lk = true ->
+       exists mem ch, q_st q = Some mem /\ store_choice (isa_of (m_isa m)) (t_st tb) mem rt = Some ch /\
+                      st_part m tb q rt lk = if writeback_only (m_isa m) lk then [] else choice_uops (t_st_default tb) ch).
+  Proof.
+    intros HD HR H HU. destruct (cost_rows_compose _ _ _ _ _ _ _ HD HR H) as (lk' & HF & HC & _). symmetry in HC.
+    destruct (compose_parts _ _ _ _ _ _ _ _ HF HC) as (L & S & _).
+    split; [|exact (parts_are_selected _ _ _ _ _ _ _ _ HF HC)].
+    rewrite <- L, <- S. eapply compose_uops; eauto.
+  Qed.
+
+  (* not flagged unknown; HAS_ST dropped only for a write-back-only form *)
+  Lemma compose_not_unknown_rows m tb q lk e rtr c :
+    with_fallback (lk_suffix lk) (lk_direct lk) (lk_direct_s lk) = None ->
+    regform lk = Some (e, rtr) ->
+    cost_instr_rows N m tb q lk = Some (Ok c) ->
+    ~ In F_TP_UNKWN (c_flags c) /\ ~ In F_LT_UNKWN (c_flags c).
+  Proof.
+    intros HD HR H. destruct rtr as [rt|x].
+    - destruct (cost_rows_compose _ _ _ _ _ _ _ HD HR H) as (lk' & HF & HC & _). symmetry in HC.
+      destruct (compose_flags N _ _ _ _ _ HC) as (A & B & _). split; assumption.
+    - unfold cost_instr_rows in H. rewrite HD, HR in H. discriminate.
+  Qed.
+
+  Lemma compose_latency_rows_any m tb q lk e rt c :
+    with_fallback (lk_suffix lk) (lk_direct lk) (lk_direct_s lk) = None ->
+    regform lk = Some (e, Ok rt) ->
+    cost_instr_rows N m tb q lk = Some (Ok c) ->
+    exists l ll, e_lt e = Some l /\ (if lk_has_ld lk then load_latency N m rt else Ok (n0 N)) = Ok ll /\
+      c_lat c = nadd N (nadd N l ll) (n0 N) /\ c_lat_wo c = l.
+  Proof.
+    intros HD HR H. destruct (cost_rows_compose _ _ _ _ _ _ _ HD HR H) as (lk' & HF & HC & _). symmetry in HC.
+    destruct (compose_latency N _ _ _ _ _ HC) as (rt' & l & ll & Hr & Hl & Hll & Hc & Hw). inversion Hr; subst rt'.
+    destruct (fill_rows_fields _ _ _ _ _ _ HF) as (A1 & _). rewrite A1 in Hll. exists l, ll. repeat split; assumption.
+  Qed.
+
+  (* neither form: the tables are not consulted, everything is zero *)
+  Lemma unknown_zero_rows m tb q lk :
+    with_fallback (lk_suffix lk) (lk_direct lk) (lk_direct_s lk) = None ->
+    regform lk = None ->
+    exists c, cost_instr_rows N m tb q lk = Some (Ok c) /\
+      In F_TP_UNKWN (c_flags c) /\ In F_LT_UNKWN (c_flags c) /\
+      c_pp c = map (fun _ => n0 N) (m_ports m) /\ c_lat c = n0 N /\ c_lat_wo c = n0 N /\ c_tp c = n0 N /\ c_uops c = PList [].
+  Proof.
+    intros HD HR. destruct (unknown_zero N m lk HD HR) as (c & Hc & A & B & C & _ & _ & D & E & F & G).
+    exists c. rewrite cost_rows_other by (right; intros e rt; rewrite HR; discriminate). rewrite Hc. repeat split; assumption.
+  Qed.
 End Glue.
+
+(* ------------------------------------------------------------------ exact rationals, rows computed *)
+Section GlueQ.
+  Local Open Scope Q_scope.
+  Import QArith.
+
+  Lemma compose_pressure_rows m tb q lk e rt c r l s :
+    with_fallback (lk_suffix lk) (lk_direct lk) (lk_direct_s lk) = None ->
+    regform lk = Some (e, Ok rt) ->
+    cost_instr_rows QNum m tb q lk = Some (Ok c) ->
+    avg_pressure QNum (m_ports m) (e_uops e) = Ok r ->
+    avg_pressure_list QNum (m_ports m) (ld_part (isa_of (m_isa m)) tb q rt lk) = Ok l ->
+    avg_pressure_list QNum (m_ports m) (st_part m tb q rt lk) = Ok s ->
+    List.length (c_pp c) = List.length (m_ports m) /\
+    forall j, qnth (c_pp c) j == qnth r j + mult_of (m_ld_mult m) rt * qnth l j + mult_of (m_st_mult m) rt * qnth s j.
+  Proof.
+    intros HD HR H Hr Hl Hs. destruct (cost_rows_compose _ _ _ _ _ _ _ _ HD HR H) as (lk' & HF & HC & _). symmetry in HC.
+    destruct (compose_parts _ _ _ _ _ _ _ _ _ HF HC) as (L & S & _). rewrite <- L in Hl. rewrite <- S in Hs.
+    exact (compose_pressure_Q _ _ _ _ _ _ _ _ HC Hr Hl Hs).
+  Qed.
+
+  Lemma compose_pressure_rows_uniform m tb q lk e rt c ru r l s t :
+    with_fallback (lk_suffix lk) (lk_direct lk) (lk_direct_s lk) = None ->
+    regform lk = Some (e, Ok rt) ->
+    cost_instr_rows QNum m tb q lk = Some (Ok c) -> e_uops e = UList ru ->
+    m_ld_mult m = None -> m_st_mult m = None ->
+    avg_pressure_list QNum (m_ports m) ru = Ok r ->
+    avg_pressure_list QNum (m_ports m) (ld_part (isa_of (m_isa m)) tb q rt lk) = Ok l ->
+    avg_pressure_list QNum (m_ports m) (st_part m tb q rt lk) = Ok s ->
+    avg_pressure_list QNum (m_ports m) (ru ++ ld_part (isa_of (m_isa m)) tb q rt lk ++ st_part m tb q rt lk) = Ok t ->
+    forall j, qnth (c_pp c) j == qnth t j.
+  Proof.
+    intros HD HR H HU M1 M2 Hr Hl Hs Ht. destruct (cost_rows_compose _ _ _ _ _ _ _ _ HD HR H) as (lk' & HF & HC & _). symmetry in HC.
+    destruct (compose_parts _ _ _ _ _ _ _ _ _ HF HC) as (L & S & _). rewrite <- L in Hl, Ht. rewrite <- S in Hs, Ht.
+    exact (proj2 (compose_pressure_uniform _ _ _ _ _ _ _ _ _ _ HC HU M1 M2 Hr Hl Hs Ht)).
+  Qed.
+
+  Lemma compose_latency_rows m tb q lk e rt c :
+    with_fallback (lk_suffix lk) (lk_direct lk) (lk_direct_s lk) = None ->
+    regform lk = Some (e, Ok rt) ->
+    cost_instr_rows QNum m tb q lk = Some (Ok c) ->
+    exists l ll, e_lt e = Some l /\ (if lk_has_ld lk then load_latency QNum m rt else Ok 0) = Ok ll /\
+      c_lat c == l + ll /\ c_lat_wo c = l.
+  Proof.
+    intros HD HR H. destruct (compose_latency_rows_any QNum _ _ _ _ _ _ _ HD HR H) as (l & ll & A & B & C & D).
+    exists l, ll. repeat split; auto. rewrite C. cbn [nadd QNum n0]. rewrite !Qred_correct. ring.
+  Qed.
+
+  (* throughput = the larger of the register form's throughput and the busiest data port, the data-port pressure being
+     that of the selected rows *)
+  Lemma compose_throughput_rows m tb q lk e rt c :
+    with_fallback (lk_suffix lk) (lk_direct lk) (lk_direct_s lk) = None ->
+    regform lk = Some (e, Ok rt) ->
+    cost_instr_rows QNum m tb q lk = Some (Ok c) ->
+    exists lk' d t, fill_rows m tb q rt lk = Some lk' /\
+      ld_uops lk' = ld_part (isa_of (m_isa m)) tb q rt lk /\ st_uops m lk' = st_part m tb q rt lk /\
+      data_pressure QNum m lk' rt = Ok d /\ e_tp e = Some t /\
+      t <= c_tp c /\ (forall y, In y d -> y <= c_tp c) /\ (c_tp c = t \/ In (c_tp c) d).
+  Proof.
+    intros HD HR H. destruct (cost_rows_compose _ _ _ _ _ _ _ _ HD HR H) as (lk' & HF & HC & _). symmetry in HC.
+    destruct (compose_parts _ _ _ _ _ _ _ _ _ HF HC) as (L & S & _).
+    destruct (compose_throughput_Q _ _ _ _ _ HC) as (d & t & A & B & C & D & E).
+    exists lk', d, t. repeat split; auto.
+  Qed.
+End GlueQ.
